@@ -116,6 +116,8 @@ class VMDK(AlignedStream):
 
         sector = offset // SECTOR_SIZE
         count = (length + SECTOR_SIZE - 1) // SECTOR_SIZE
+        # The last aligned read of the stream may extend past the end of the disk, don't read beyond the last extent
+        count = min(count, self.sector_count - sector)
 
         return self.read_sectors(sector, count)
 
